@@ -31,6 +31,7 @@ Definition render_ev (e : ev) : frame :=
   | EvHeaders s _ => cl H2_FTYPE_HEADERS 5 s 0 (-1)          (* END_STREAM | END_HEADERS: the regime of the model *)
   | EvWU s v => cl H2_FTYPE_WINDOW_UPDATE 0 s 4 v
   | EvPing => cl H2_FTYPE_PING 0 0 8 (-1)
+  | EvRst s => cl H2_FTYPE_RST_STREAM 0 s 4 8          (* CANCEL; the tracker does not look at the code *)
   end.
 
 (* events whose frame fits the frame size lighttpd advertises (a larger SETTINGS frame is a FRAME_SIZE_ERROR before any setting is read) *)
@@ -346,6 +347,34 @@ Proof.
   destruct (l_maxcid l <? s)%N eqn:E1; [|lia]. reflexivity.
 Qed.
 
+Lemma cl_rst l s : l_cl_cont l = None ->
+  client_frame l (render_ev (EvRst s)) =
+  if (s =? 0)%N || (l_maxcid l <? s)%N then conn_error l
+  else set_streams l (upd_s s (fun x => {| s_id := s_id x; cl_end := cl_end x; cl_rst := true; sv_hdr := sv_hdr x; sv_end := sv_end x; refused := refused x |}) (l_streams l)).
+Proof.
+  intros Hc. unfold client_frame, render_ev, cl. cbn [ty st len fl arg arg2 w]. rewrite Hc.
+  change (4 >? 16384) with false. cbn iota. tyeqc. change (4 =? 4) with true. cbn [negb]. rewrite orb_false_r. reflexivity.
+Qed.
+
+Lemma remove_in s0 : forall ss x, In x (remove_stream s0 ss) -> In x ss.
+Proof.
+  induction ss as [|y ss IH]; intros x H; [exact H|]. cbn [remove_stream] in H. destruct (sid y =? s0)%N; [right; exact H|].
+  destruct H as [H|H]; [left; exact H|right; apply IH; exact H].
+Qed.
+Lemma remove_notin s0 : forall ss, NoDup (map sid ss) -> forall x, In x (remove_stream s0 ss) -> sid x <> s0.
+Proof.
+  induction ss as [|y ss IH]; intros Hn x H; [destruct H|]. cbn [map] in Hn. apply NoDup_cons_iff in Hn as [H1 H2]. cbn [remove_stream] in H.
+  destruct (sid y =? s0)%N eqn:E.
+  - apply N.eqb_eq in E. intros Ex. apply H1. rewrite E, <- Ex. apply in_map. exact H.
+  - destruct H as [H|H]; [subst x; apply N.eqb_neq; exact E|apply IH; assumption].
+Qed.
+Lemma remove_nodup s0 : forall ss, NoDup (map sid ss) -> NoDup (map sid (remove_stream s0 ss)).
+Proof.
+  induction ss as [|y ss IH]; intros Hn; [constructor|]. cbn [map] in Hn. apply NoDup_cons_iff in Hn as [H1 H2]. cbn [remove_stream].
+  destruct (sid y =? s0)%N; [exact H2|]. cbn [map]. constructor; [|apply IH; exact H2].
+  intros Hin. apply H1. apply in_map_iff in Hin as [x [Ex Hx]]. rewrite <- Ex. apply in_map. eapply remove_in. exact Hx.
+Qed.
+
 Definition mfs_bad (a : Z) : bool := (0 <=? a) && ((a <? 16384) || (16777215 <? a)).
 Lemma cl_settings l ps : l_cl_cont l = None -> (length ps <= 2730)%nat ->
   client_frame l (render_ev (EvSettings ps)) =
@@ -523,7 +552,7 @@ Lemma step_legal c e c' o l : inv c l -> alive c = true -> ev_fits e -> step c e
 Proof.
   intros Hi Ha Hfit H. unfold step in H. rewrite Ha in H. cbn [negb] in H.
   pose proof Hi as [Hl [Hcc [He [Hf [Hm [Hu [Hp [Hs Hio]]]]]]]].
-  destruct e as [ps| |s n|s v|].
+  destruct e as [ps| |s n|s v| |s].
   - (* SETTINGS *)
     cbn [ev_fits] in Hfit. rewrite (cl_settings _ _ Hcc Hfit).
     destruct (settings_loop c ps []) as [c1 o1] eqn:ES.
@@ -618,6 +647,21 @@ Proof.
     + rewrite legal_sv_cons, R1. reflexivity.
     + unfold scal in R3. inversion R3. clear R3. subst l1. prj.
       unfold inv, live. rewrite R2. prj. destruct Hl as [? [? ?]]. repeat split; try congruence; try lia; try assumption; try apply Hio.
+  - (* RST_STREAM from the client *)
+    rewrite (cl_rst _ _ Hcc). rewrite Hm.
+    destruct ((s =? 0)%N || (cid c <? s)%N) eqn:E.
+    + destruct (goaway c H2_E_PROTOCOL_ERROR) as [c1 o1] eqn:EG. injection H as <- <-.
+      assert (WE : winv c (conn_error l)).
+      { destruct (conn_error_live l Hl) as [A [B C]]. unfold winv. rewrite B, C. split; [exact A|]. split; [exact Hm|]. split; [exact Hs|exact Hio]. }
+      destruct (goaway_legal _ _ _ _ _ EG WE) as [Hd [l' R]]. exists l'. split; [exact R|]. congruence.
+    + destruct (pump 64 _) as [c2 o2] eqn:EP. injection H as <- <-.
+      match goal with |- exists l', legal_from ?l1 _ = _ /\ _ => apply (pump_step _ _ _ l1 [] l1 EP eq_refl) end.
+      destruct Hio as [Hnd Hb]. unfold inv, live. cbn [l_streams l_maxcid l_unacked l_pings l_fsize l_sv_cont l_cl_cont l_dead l_gosent l_conn_err l_err_at set_streams fsize cid streams with_streams mk_h2].
+      destruct Hl as [? [? ?]]. repeat split; try assumption.
+      * unfold sinv in *. rewrite Forall_forall in *. intros x Hx. destruct (Hs x (remove_in _ _ _ Hx)) as [y [A B]]. exists y. split; [|exact B].
+        rewrite find_upd_other; [exact A|intros z; reflexivity|]. exact (remove_notin s _ Hnd x Hx).
+      * apply remove_nodup. exact Hnd.
+      * rewrite Forall_forall in *. intros x Hx. apply Hb. eapply remove_in. exact Hx.
 Qed.
 
 (* ---------------------------------------------------------------- every history *)
@@ -697,7 +741,7 @@ Proof.
 Qed.
 
 (* non-vacuity: a history with settings, two requests, a ping, credit, and a final connection error has a trace, and it is legal *)
-Example a_history : exists tr, trace h2_init [EvSettings [(4%N, 100); (5%N, 20000)]; EvHeaders 1 3000; EvPing; EvHeaders 3 0; EvWU 1 5000; EvSettingsAck; EvWU 0 0; EvPing] = Some tr
+Example a_history : exists tr, trace h2_init [EvSettings [(4%N, 100); (5%N, 20000)]; EvHeaders 1 3000; EvPing; EvHeaders 3 0; EvWU 1 5000; EvHeaders 5 70000; EvRst 5; EvSettingsAck; EvWU 0 0; EvPing] = Some tr
   /\ (length tr > 12)%nat /\ legal true tr = None.
 Proof. eexists. split; [vm_compute; reflexivity|]. split; vm_compute; [lia|reflexivity]. Qed.
 Print Assumptions every_emitted_frame_is_legal_in_every_history.
